@@ -117,8 +117,8 @@ CHECKS = {
          'calls on random grouped lists and an exact-rational oracle through Parser.parse (definitions, regroupings, '
          'permutations, criteria, error items, SLOPE, STDEV/GEOMEAN numerically).',
     design='7/C11',
-    note='partial: permutation invariance of MEDIAN/LARGE/MODE, and STDEV*/GEOMEAN (sqrt/log), are validated by the oracle, '
-         'not proved; statistics module modelled by definitions; wildcard patterns without "["; floats exact (dyadic items).',
+    note='partial: permutation invariance of MODE, and STDEV*/GEOMEAN (sqrt/log), are validated by the oracle, not proved '
+         '(MEDIAN and LARGE are proved order-free by rank counting on sorted arrangements); statistics module modelled by definitions; wildcard patterns without "["; floats exact (dyadic items).',
     technique='Coq proof (list induction, Permutation, sorted insertion) + random grouped-list correspondence + exact-rational oracle'),
  'C17': dict(
     text='Coq theorems: ROUND/ROUNDUP/ROUNDDOWN as integers in units of 10^-digits with the three characterising '
